@@ -46,13 +46,15 @@ func genCandidate(r vlib.Rnd) *vlib.Project {
 		case 2:
 			return vlib.SingleFile(genOrFamily(r))
 		}
-		switch r.Intn(5) {
+		switch r.Intn(6) {
 		case 0:
 			return vlib.SingleFile(genRPCFamily(r))
 		case 1:
 			return vlib.SingleFile(genRegexFamily(r))
 		case 2:
 			return vlib.SingleFile(genBodyFamily(r))
+		case 3:
+			return vlib.SingleFile(genAliasFamily(r))
 		}
 		return vlib.SingleFile(genTagSoup(r))
 	case 6:
@@ -230,6 +232,53 @@ func genAllOfFamily(r vlib.Rnd) []byte {
 	fmt.Fprintf(&sb, "POST /a/{id}\n  Request @t%d\n  200 @t%d\n  404 [@t%d]\n", r.Intn(n), n-1, r.Intn(n))
 	if vlib.Chance(r, 1, 3) {
 		fmt.Fprintf(&sb, "  Path\n    { // {allOf: \"@t%d\"}\n      \"id\": 1\n    }\n", r.Intn(n))
+	}
+	return []byte(sb.String())
+}
+
+// genAliasFamily: user types whose whole value is a reference to a user type - to another alias, to themselves (the schema
+// library accepts "@a // {nullable: true}" as the body of @a), in chains and mutual pairs, or to a mixed value - used in
+// every position that looks through references: Headers, Query, Path (as the schema and as a property), bodies, allOf.
+func genAliasFamily(r vlib.Rnd) []byte {
+	var sb strings.Builder
+	sb.WriteString("JSIGHT 0.3\n\n")
+	n := 1 + r.Intn(3)
+	rule := func() string {
+		return vlib.Pick(r, []string{"", " // {nullable: true}", " // {nullable: true}", " // {optional: true}"})
+	}
+	for i := 0; i < n; i++ {
+		switch r.Intn(5) {
+		case 0:
+			fmt.Fprintf(&sb, "TYPE @a%d\n  {\"x\": %d}\n\n", i, i)
+		case 1:
+			fmt.Fprintf(&sb, "TYPE @a%d\n  @a%d | @a%d%s\n\n", i, r.Intn(n), r.Intn(n), rule())
+		default:
+			fmt.Fprintf(&sb, "TYPE @a%d\n  @a%d%s\n\n", i, r.Intn(n), rule())
+		}
+	}
+	t := func() string { return fmt.Sprintf("@a%d", r.Intn(n)) }
+	fmt.Fprintf(&sb, "%s /x/{id}\n", vlib.Pick(r, []string{"GET", "POST"}))
+	switch r.Intn(6) {
+	case 0:
+		fmt.Fprintf(&sb, "  Path\n    %s\n", t())
+	case 1:
+		fmt.Fprintf(&sb, "  Path\n    {\n      \"id\": %s\n    }\n", t())
+	case 2:
+		fmt.Fprintf(&sb, "  Query \"a=1\"\n    %s\n", t())
+	case 3:
+		fmt.Fprintf(&sb, "  Request\n    Headers\n      %s\n    Body any\n", t())
+	case 4:
+		fmt.Fprintf(&sb, "  Request\n    { // {allOf: \"%s\"}\n      \"own\": 1\n    }\n", t())
+	}
+	switch r.Intn(4) {
+	case 0:
+		fmt.Fprintf(&sb, "  200 %s\n", t())
+	case 1:
+		fmt.Fprintf(&sb, "  200 [%s]\n", t())
+	case 2:
+		fmt.Fprintf(&sb, "  200\n    Headers\n      %s\n    Body any\n", t())
+	default:
+		fmt.Fprintf(&sb, "  200\n    {\"p\": %s}\n", t())
 	}
 	return []byte(sb.String())
 }
